@@ -17,6 +17,7 @@ Implementation side (runs inside the worker, against /repo/src):
     getpass, bits.rpc.rpc_method, bits.tx.send_tx, bits.__main__.mine_block, bits.p2p.Node / set_magic_start_bytes.
   * options are placed AFTER the subcommand name.  (An option given before a subcommand name is overwritten by the
     sub-parser's default -- argparse's namespace copy; outside the property's scope, not exercised.)
+  * the in-process driver itself is harness/cli.py (run_main), shared with the other properties.
 Model side: Model/Cli.v extracted (c20_*), parameterised by Gen/CliTable.v.
 """
 import io
@@ -260,22 +261,6 @@ def impl_convert(f, g, data):
     return cur
 
 
-def _toml_text(d):
-    lines = []
-    for k, v in d.items():
-        kk = k if (k and all(ch.isalnum() and ord(ch) < 128 or ch in "_-" for ch in k)) else json.dumps(k)
-        if isinstance(v, bool):
-            vv = "true" if v else "false"
-        elif isinstance(v, int):
-            vv = str(v)
-        elif isinstance(v, str):
-            vv = json.dumps(v)
-        else:
-            raise TypeError("cannot write %r to TOML" % (v,))
-        lines.append("%s = %s" % (kk, vv))
-    return "\n".join(lines) + "\n"
-
-
 _FLAGS = {}
 
 
@@ -335,26 +320,9 @@ def run_main(sub, cli, ftoml, fjson, has_toml, stdin_bytes, style=0, extra=None)
 
 
 def _run_main(sub, cli, ftoml, fjson, has_toml, stdin_bytes, style=0, extra=None):
-    """run bits.__main__.main() in-process; returns dict(config, out, ret, handlers, calls)"""
-    import secrets
-    import shutil
-    import tempfile
-    import bits
-    import bits.__main__ as M
-    import bits.config as C
-    import bits.keys
-    import bits.p2p
-    import bits.rpc
-    import bits.tx
-
-    class Spy(C.Config):
-        seen = []
-
-        def __new__(cls, *a, **k):
-            o = super().__new__(cls)
-            Spy.seen.append(o)
-            return o
-
+    """run bits.__main__.main() in-process through harness/cli.py; returns dict(config, out, ret, exit, handlers, calls,
+    pipeline_done)"""
+    import cli as cli_driver
     cap = _Capture()
 
     def stub(name, ret=None):
@@ -370,77 +338,22 @@ def _run_main(sub, cli, ftoml, fjson, has_toml, stdin_bytes, style=0, extra=None
         def start(self):
             pass
 
-    tmp = tempfile.mkdtemp(prefix="c20cfg_", dir=os.getcwd())
-    saved = {
-        "argv": sys.argv, "stdin": sys.stdin, "stdout": sys.stdout, "stderr": sys.stderr,
-        "Config": M.Config, "HAS": C.HAS_TOMLLIB, "key": bits.keys.key, "token_bytes": secrets.token_bytes,
-        "randbelow": secrets.randbelow,
-        "getpass": M.getpass, "rpc_method": bits.rpc.rpc_method, "send_tx": bits.tx.send_tx,
-        "mine_block": M.mine_block, "magic": bits.p2p.set_magic_start_bytes, "Node": bits.p2p.Node,
-        "levels": [(h, h.level) for h in bits.log.handlers], "set_log_level": bits.set_log_level,
-    }
-    outb = io.BytesIO()
-    res = {"config": None, "out": b"", "ret": None, "handlers": None, "calls": cap.calls, "exit": None,
-           "pipeline_done": False}
-    try:
-        if fjson is not None:
-            with open(os.path.join(tmp, "config.json"), "w") as f:
-                json.dump(fjson, f)
-        if ftoml is not None:
-            with open(os.path.join(tmp, "config.toml"), "w") as f:
-                f.write(_toml_text(ftoml))
-        argv = ["bits", "--config-dir", tmp] + (([sub] + (POSITIONALS.get(sub, []) if extra is None else list(extra))) if sub else [])
-        argv += render_argv(sub, cli, style)
-        sys.argv = argv
-        sys.stdin = io.TextIOWrapper(io.BytesIO(stdin_bytes), encoding="utf-8")
-        sys.stdout = io.TextIOWrapper(outb, encoding="utf-8", write_through=True)
-        sys.stderr = io.StringIO()
-        M.Config = Spy
-        C.HAS_TOMLLIB = bool(has_toml)
-        bits.keys.key = lambda: FIXED_KEY
-        secrets.token_bytes = lambda n=32: bytes(n)
-        secrets.randbelow = lambda n: 0x1234567 % n        # ECDSA nonce of `bits sig`: fixed, so that runs are comparable
-        M.getpass = lambda prompt="": ""
-        bits.rpc.rpc_method = stub("rpc_method", "ok")
-        bits.tx.send_tx = stub("send_tx", b"\x01\x02")
-        M.mine_block = stub("mine_block")
-        bits.p2p.set_magic_start_bytes = stub("set_magic_start_bytes")
-        bits.p2p.Node = NodeStub
-
-        def set_log_level(level):                 # first statement of main() after the configuration pipeline
-            res["pipeline_done"] = True
-            return saved["set_log_level"](level)
-        bits.set_log_level = set_log_level
-        try:
-            res["ret"] = M.main()
-        except SystemExit as e:
-            res["exit"] = e.code
-        try:
-            sys.stdout.flush()
-        except Exception:
-            pass
-        res["out"] = outb.getvalue()
-        res["handlers"] = [h.level for h in bits.log.handlers]
-        if Spy.seen:
-            res["config"] = dict(vars(Spy.seen[0]))
-    finally:
-        sys.argv, sys.stdin, sys.stdout, sys.stderr = saved["argv"], saved["stdin"], saved["stdout"], saved["stderr"]
-        M.Config = saved["Config"]
-        C.HAS_TOMLLIB = saved["HAS"]
-        bits.keys.key = saved["key"]
-        secrets.token_bytes = saved["token_bytes"]
-        secrets.randbelow = saved["randbelow"]
-        M.getpass = saved["getpass"]
-        bits.rpc.rpc_method = saved["rpc_method"]
-        bits.tx.send_tx = saved["send_tx"]
-        M.mine_block = saved["mine_block"]
-        bits.p2p.set_magic_start_bytes = saved["magic"]
-        bits.p2p.Node = saved["Node"]
-        bits.set_log_level = saved["set_log_level"]
-        for h, lvl in saved["levels"]:
-            h.setLevel(lvl)
-        shutil.rmtree(tmp, ignore_errors=True)
-    return res
+    argv = (([sub] + (POSITIONALS.get(sub, []) if extra is None else list(extra))) if sub else [])
+    argv += render_argv(sub, cli, style)
+    r = cli_driver.run_main(
+        argv, stdin=stdin_bytes, config_json=fjson, config_toml=ftoml, has_toml=bool(has_toml), getpass="",
+        stubs={
+            "bits.keys.key": lambda: FIXED_KEY,
+            "secrets.token_bytes": lambda n=32: bytes(n),
+            "secrets.randbelow": lambda n: 0x1234567 % n,     # ECDSA nonce of `bits sig`: fixed, runs are comparable
+            "bits.rpc.rpc_method": stub("rpc_method", "ok"),
+            "bits.tx.send_tx": stub("send_tx", b"\x01\x02"),
+            "bits.__main__.mine_block": stub("mine_block"),
+            "bits.p2p.set_magic_start_bytes": stub("set_magic_start_bytes"),
+            "bits.p2p.Node": NodeStub,
+        })
+    return {"config": r["config"], "out": r["out"], "ret": r["ret"], "handlers": r["handlers"], "calls": cap.calls,
+            "exit": r["exit"], "pipeline_done": r["pipeline_done"], "exc": r["exc"], "err": r["err"]}
 
 
 # ======================================================================================
